@@ -258,6 +258,11 @@ def multiband_and_decimal_writes(run):
             bvalid = np.ones((rl, cl), bool)
             bvalid[rl // 2, cl // 2] = False
             barr[:, ~bvalid] = np.nan
+            # one pixel that is invalid in the middle band only: the other two bands of it are data like any other
+            pr, pc = (rl // 2 + 1) % rl, (cl // 2 + 1) % cl
+            partial = bvalid[pr, pc]
+            if partial:
+                barr[1, pr, pc] = np.nan
             bg = rasters.Grid(g.x0 + c0 * g.px, g.ytop - r0 * g.py, g.px, g.py, cl, rl)
             ra = RasterArray(barr.copy(), rasters.CRS3857, bg.transform, nodata=float('nan'))
             p = run.tmpdir() / 'c20_mb.tif'
@@ -286,6 +291,8 @@ def multiband_and_decimal_writes(run):
                             if back[b, r, c] != 7:
                                 bad = (b, r, c, 'outside the window', float(back[b, r, c]))
                             continue
+                        if partial and (r - r0, c - c0) == (pr, pc) and b == 1:
+                            continue        # the invalid band of the partly valid pixel: nothing is claimed about it
                         if bvalid[r - r0, c - c0]:
                             if back[b, r, c] != barr[b, r - r0, c - c0] or not mk[b, r, c]:
                                 bad = (b, r, c, 'valid block pixel', float(back[b, r, c]), float(barr[b, r - r0, c - c0]))
